@@ -482,6 +482,42 @@ func phiLeaves(v ssa.Value) []ssa.Value {
 			}
 			return
 		}
+		// a result of a helper analysed as part of this function: whatever the helper can return there
+		var call *ssa.Call
+		idx := 0
+		switch y := x.(type) {
+		case *ssa.Extract:
+			call, _ = y.Tuple.(*ssa.Call)
+			idx = y.Index
+		case *ssa.Call:
+			call = y
+		}
+		if call != nil {
+			if h := core.AbsorbedCallee(call); h != nil {
+				n := 0
+				for _, r := range core.ReturnsOf(h) {
+					if idx < len(r.Results) {
+						walk(core.RetVal(r, idx))
+						n++
+					}
+				}
+				if n > 0 {
+					return
+				}
+			}
+		}
+		// a load of a result cell (named results with defers): the values stored into it
+		if ld, ok := x.(*ssa.UnOp); ok && ld.Op == token.MUL {
+			if a, isA := ld.X.(*ssa.Alloc); isA && !core.CellEscapes(a) {
+				sts := core.StoresToCell(a)
+				if len(sts) > 0 {
+					for _, st := range sts {
+						walk(st.Val)
+					}
+					return
+				}
+			}
+		}
 		out = append(out, x)
 	}
 	walk(v)
